@@ -1,0 +1,13 @@
+//go:build verif
+
+package scheduler
+
+// Contracts for the govc verifier (/verif). This file contains comments only;
+// it does not change the compiled package.
+
+//@ func (*InMemoryBuildQueue).enter
+//@   props C14
+//@   lockeffect bq.lock +1
+//@ func (*InMemoryBuildQueue).leave
+//@   props C14
+//@   lockeffect bq.lock -1
